@@ -131,6 +131,14 @@ def run_case(case):
             nontrivial += 1
             ws.append((wu, wd))
             refs.append(ref)
+            if len(ws) == 1:
+                # the local energy is a ratio: it does not depend on the norm of the walker
+                for sc_ in (1e-3, 1e2):
+                    if entry == "u":
+                        es_ = complex(trial._calc_energy(jnp.array(sc_ * wu), jnp.array(sc_ * wd), hd, wd_))
+                    else:
+                        es_ = complex(trial._calc_energy_restricted(jnp.array(sc_ * wu), hd, wd_))
+                    events.append(judge("energy/walker-rescaled-" + entry, abs(es_ - ref), 10 * tol, "%s/energy-rescaled-%s" % (key0, entry), scale=sc_))
             if sample is None:
                 sample = {"entry": entry, "code": e, "ref": ref, "S": S, "tol": tol, "ovl_rel": rel}
         # batched evaluation (walker order, n_batch)
